@@ -46,6 +46,9 @@ def run_prop(prop, tier, seed, replay=None, make_cases=None):
         r = rc.compile_run(src)
         stats['programs'] += 1
         expect_fail = prop == 'C04'
+        if not expect_fail and not (r['ok'] and r.get('run_ok')):
+            violations.append(dict(kind='property', request='corpus/%s/%s' % (prop, name), program=src, errors=r['errors'][:4],
+                                   oracle='a corpus program of a fixed finding no longer compiles and runs: %s' % r['errors'][:2]))
         if expect_fail and r['ok']:
             violations.append(dict(kind='property', request='corpus/%s/%s' % (prop, name), program=src, stdout=r.get('stdout'),
                                    oracle='a witness program with a type satisfying two blocks compiles (overlap silently resolved)'))
